@@ -100,6 +100,17 @@ MC_MapsWordsQuick == {
     << Pair("inf", "H__x"), Pair("INF", "H__x") >>,
     << Pair("j", "x"), Pair("NaN", "j") >> }
 
+(* instances with line structure (NL inside brackets, NEWLINE between complete equations) *)
+MC_NamesLines == {"x", "x_1"}
+MC_OpsLines   == {"+"}
+MC_OpsBlocks  == {"=", "+"}
+MC_NumbersNone == {}
+MC_OpsLines2  == {"+", "*", "="}
+MC_MapsLines == {
+    << Pair("x", "H__x") >>,
+    << Pair("x", "x_1"), Pair("x_1", "x") >>,                      \* swap
+    << Pair("x", "x_1"), Pair("x_1", "xx") >> }                    \* chain
+
 MC_PairsAll == [target : {"x", "x_1", "xx", "k"}, repl : MapTargets]
 MC_PairsNone == {}
 MC_PairsDeep == { [target |-> "x", repl |-> "xx"] }
